@@ -1,5 +1,5 @@
 From Coq Require Import ZArith List Bool Lia.
-From Tally Require Import Base.Obs Model.Udp.
+From Tally Require Import Base.ObsCore Model.Udp.
 Import ListNotations.
 Open Scope Z_scope.
 
